@@ -55,8 +55,8 @@ pub fn synth_schema_sdl() -> String {
         "enum Color {{ RED GREEN BLUE }}\nscalar Date\n\
          input Point {{ x: Int! y: Int! = 0 label: String tags: [String!] inner: Point pts: [[Point!]] c: Color d: Date f: Float b: Boolean id: ID nl: [Int!]! }}\n\
          interface Node {{ id: ID! }}\ninterface Named implements Node {{ id: ID! name: String }}\n\
-         type A implements Node & Named {{ id: ID! name: String nick: String a: Int peer: B self: A list: [A!]! nested: [[A]] selfN: A! selfL: [A] selfLN: [A!] selfNL: [A]! nameN: String! names: [String] }}\n\
-         type B implements Node {{ id: ID! b: Float peer: A peerN: A! peerL: [A] peerLN: [A!] peerNL: [A]! peerNLN: [A!]! peerLL: [[A]] s: String sN: String! sL: [String] i: Int }}\nunion AB = A | B\n\
+         type A implements Node & Named {{ id: ID! name: String nick: String a: Int peer: B self: A list: [A!]! nested: [[A]] selfN: A! selfL: [A] selfLN: [A!] selfNL: [A]! nameN: String! names: [String] arg1(x: Int): A arg2(y: Int!, z: Int, l: [Int!], ln: [Int!]!, d: Int! = 1): A }}\n\
+         type B implements Node {{ id: ID! b: Float peer: A peerN: A! peerL: [A] peerLN: [A!] peerNL: [A]! peerNLN: [A!]! peerLL: [[A]] s: String sN: String! sL: [String] i: Int arg1(x: Int): A }}\nunion AB = A | B\n\
          type Query {{\n  node: Node\n  named: Named\n  a: A\n  b: B\n  ab: AB\n{}}}\n\
          type Mutation {{ m(a: Int): Int }}\ntype Subscription {{ s1: Int s2: Int sa: A }}\n\
          directive @args({}req: Boolean! = true) repeatable on FIELD | QUERY | MUTATION | SUBSCRIPTION | FRAGMENT_DEFINITION | FRAGMENT_SPREAD | INLINE_FRAGMENT\n\
@@ -668,4 +668,102 @@ pub fn merge_argument_cases() -> Vec<GDoc> {
         out.push(doc(fld(None), fld(Some(x))));
     }
     out
+}
+
+
+/// C09: an outer field with arguments, a wrapper (nothing / inline fragments on known, unknown or no
+/// type / an unknown field / directive-bearing variants) and an inner field or directive with
+/// arguments that are declared, undeclared, duplicated (adjacent and not), missing although
+/// required (named, list-typed, defaulted): every combination, so that what the argument rules
+/// remember between a field / directive and its arguments is exercised at every nesting.
+pub fn argument_slot_cases() -> Vec<GDoc> {
+    let i = |n: i64| GValue::Int(n);
+    let fld = |name: &str, args: Vec<(&str, GValue)>, dirs: Vec<GDir>, sels: Vec<GSel>| GSel::Field { alias: None, name: name.into(),
+        args: args.into_iter().map(|(k, v)| (k.to_string(), v)).collect(), dirs, sels };
+    let dir = |name: &str, args: Vec<(&str, GValue)>| GDir { name: name.into(), args: args.into_iter().map(|(k, v)| (k.to_string(), v)).collect() };
+    let leaf = || vec![fld("id", vec![], vec![], vec![])];
+    // inner selections (placed innermost)
+    let inners: Vec<GSel> = vec![
+        fld("arg1", vec![("x", i(1))], vec![], leaf()),
+        fld("arg1", vec![("y", i(1))], vec![], leaf()),                       // y not declared on arg1 (but on arg2)
+        fld("arg1", vec![("x", i(1)), ("zz", i(2)), ("x", i(3))], vec![], leaf()), // duplicate, not adjacent, plus unknown
+        fld("arg2", vec![("y", i(1)), ("ln", GValue::List(vec![]))], vec![], leaf()),
+        fld("arg2", vec![("z", i(1))], vec![], leaf()),                       // y and ln missing
+        fld("arg2", vec![("x", i(1)), ("y", i(2)), ("ln", GValue::List(vec![i(1)]))], vec![], leaf()), // x declared on arg1 only
+        fld("name", vec![], vec![dir("args", vec![("int0", i(1))])], vec![]),
+        fld("name", vec![], vec![dir("args", vec![("x", i(1))])], vec![]),    // x: an argument of the outer field, not of @args
+        fld("name", vec![("x", i(1))], vec![dir("onF", vec![])], vec![]),     // name takes no arguments
+        fld("nope", vec![("x", i(1))], vec![], vec![]),                       // unknown field
+        fld("name", vec![], vec![dir("zzUnknown", vec![("x", i(1))])], vec![]), // unknown directive
+    ];
+    let wrap = |k: usize, inner: GSel| -> GSel {
+        match k {
+            0 => inner,
+            1 => GSel::Inline { tc: None, dirs: vec![], sels: vec![inner] },
+            2 => GSel::Inline { tc: Some("A".into()), dirs: vec![], sels: vec![inner] },
+            3 => GSel::Inline { tc: Some("Ghost".into()), dirs: vec![], sels: vec![inner] },
+            4 => GSel::Inline { tc: Some("Ghost".into()), dirs: vec![], sels: vec![fld("who", vec![], vec![], vec![inner])] },
+            5 => fld("nope", vec![], vec![], vec![inner]),
+            6 => fld("nope", vec![("q", i(1))], vec![], vec![inner]),
+            7 => GSel::Inline { tc: Some("Named".into()), dirs: vec![dir("onIF", vec![])], sels: vec![inner] },
+            _ => GSel::Inline { tc: Some("B".into()), dirs: vec![], sels: vec![fld("arg1", vec![("x", i(1))], vec![], vec![inner])] },
+        }
+    };
+    let mut out = vec![];
+    for (oi, outer_args) in [vec![("x", i(1))], vec![], vec![("x", i(1)), ("y", i(2))]].into_iter().enumerate() {
+        for k in 0..9 {
+            for inner in &inners {
+                for sibling_first in [false, true] {
+                    let mut sels = vec![wrap(k, inner.clone())];
+                    if sibling_first {
+                        sels.insert(0, fld("id", vec![], vec![], vec![]));
+                    }
+                    let outer = fld("arg1", outer_args.clone(), if oi == 1 { vec![dir("onF", vec![])] } else { vec![] }, sels);
+                    out.push(GDoc(vec![GDef::Op { kind: OpKind::SelSet, name: None, vars: vec![], dirs: vec![],
+                        sels: vec![fld("a", vec![], vec![], vec![outer])] }]));
+                }
+            }
+        }
+    }
+    out
+}
+
+/// C04: a field f selected under `... on T` inside a selection set of type P, for EVERY ordered pair
+/// (P, T) of composite types of the schema (T also absent = untyped fragment, and one level deeper:
+/// `... on T { ... on U { f } }` for sampled U) and EVERY field name defined anywhere on P or T (plus
+/// an undefined one): is f looked up on the right type?
+pub fn field_owner_cases(si: &SchemaInfo, rng: &mut Rng, max: usize) -> Vec<String> {
+    use crate::gen::{inner_name, tfields};
+    let comps = si.composite_names();
+    let is_comp = |n: &str| comps.iter().any(|c| c == n);
+    let sel_for = |owner: &str, f: &str| -> String {
+        // a well-formed selection of field f as declared on `owner` (sub-selection iff composite)
+        match si.type_by_name(owner).and_then(|t| tfields(t).iter().find(|x| x.name == f)) {
+            Some(fd) if is_comp(inner_name(&fd.field_type)) => format!("{} {{ __typename }}", f),
+            _ => f.to_string(),
+        }
+    };
+    let mut all = vec![];
+    for p in &comps {
+        for t in &comps {
+            let mut names: Vec<String> = vec!["zzNope".to_string(), "__typename".to_string()];
+            for owner in [p, t] {
+                if let Some(td) = si.type_by_name(owner) {
+                    for f in tfields(td) {
+                        if f.arguments.iter().all(|a| !matches!(a.value_type, graphql_tools::static_graphql::query::Type::NonNullType(_)) || a.default_value.is_some()) && !names.contains(&f.name) {
+                            names.push(f.name.clone());
+                        }
+                    }
+                }
+            }
+            for f in &names {
+                let owner = if si.type_by_name(t).map(|td| tfields(td).iter().any(|x| &x.name == f)).unwrap_or(false) { t } else { p };
+                all.push(format!("{{ __typename }} fragment F on {} {{ ... on {} {{ {} }} }}", p, t, sel_for(owner, f)));
+                all.push(format!("{{ __typename }} fragment F on {} {{ ... {{ ... on {} {{ {} }} }} }}", p, t, sel_for(owner, f)));
+                let u = &comps[rng.below(comps.len())];
+                all.push(format!("{{ __typename }} fragment F on {} {{ ... on {} {{ ... on {} {{ {} }} }} }}", p, t, u, sel_for(owner, f)));
+            }
+        }
+    }
+    pick_sample(all, max, rng)
 }
